@@ -19,13 +19,14 @@ GenInit == /\ Init
                            /\ \A s \in EnvSources : spell[s] = Canonical
                            /\ fstate # "junk"
            /\ fstate = "junk" => \A s \in EnvSources : spell[s] = Canonical
+           /\ fetch # "path" => /\ given["cmd"] = None /\ given["file"] = "v1" /\ given["env"] = None /\ given["fenv"] \in {None, "v2"}
            /\ nbr # NoNbr => /\ given["cmd"] = None /\ given["fenv"] \in {None, "v1"} /\ given["env"] \in {None, "v2"}
                              /\ given["file"] \in {None, "v1"} /\ \E s \in Sources : given[s] # None
 
 CaseJson(via) ==
     [cmd |-> given["cmd"], fenv |-> given["fenv"], env |-> given["env"], file |-> given["file"],
      fenvcase |-> spell["fenv"], envcase |-> spell["env"],
-     junk |-> junk, fstate |-> fstate, nside |-> nbr.side, nsrc |-> nbr.src, nform |-> nbr.form,
+     junk |-> junk, fstate |-> fstate, fetch |-> fetch, nside |-> nbr.side, nsrc |-> nbr.src, nform |-> nbr.form,
      via |-> via, winner |-> Winner(given), value |-> Effective(given), result |-> result']
 
 MCNbrSays == [side : {"before", "after"}, src : {"fenv", "env", "file"}, form : {"ok", "ill"}]
